@@ -925,3 +925,92 @@ def reprojection_stats(chk, prog, fit='PLS', apply='PLSScorePredictor', fields=(
                                   '%s preprocesses with (%s, %s) and option %s; the fit stored its statistics in (%s, %s) and empty statistics must '
                                   'mean "copy" (negative option): re-projecting the training X does not reproduce the training transform'
                                   % (apply, flds[0], flds[1], fa.unit.text(a[1]), fields[0], fields[1])))
+
+
+OPTION_TABLE = {1: ('producer', 'MatrixColSDEV'), 2: ('producer', 'MatrixColRMS'), 3: ('sqrt-of', 'MatrixColSDEV'),
+                4: ('range',), 5: ('copy-average',)}
+OPTION_NAMES = {1: 'sample standard deviation', 2: 'root mean square', 3: 'Pareto (square root of the standard deviation)',
+                4: 'range (max - min)', 5: 'level (the column average)'}
+
+
+def option_statistics(chk, prog):
+    """which statistic each scaling option stores, in the order the property lists them (1 standard deviation, 2 root-mean-square,
+    3 Pareto, 4 range, 5 level), and that centring subtracts the MatrixColAverage of the same matrix"""
+    R = chk.rule('G.option-statistic', 'scaling option k fills the scaling vector with the statistic promised for k (1 SD, 2 RMS, 3 sqrt(SD), '
+                 '4 max-min, 5 the average) of the input matrix, and the centring subtracts MatrixColAverage of the same matrix')
+    f = prog.funcs.get('MatrixPreprocess')
+    if f is None:
+        chk.broke('MatrixPreprocess not found')
+        return
+    P = [p.get('name') for p in f.params]
+    orig, typ, avg, scal, trans = P[:5]
+    tid = f.params[1]['id']
+    arms = {}
+    for n in walk(f.body):
+        if n.get('kind') == 'IfStmt':
+            c, t, e = flow.if_parts(n)
+            cs = strip(c)
+            if cs.get('kind') == 'BinaryOperator' and cs.get('opcode') == '==':
+                a, b = kids(cs)
+                if fe.ref_id(a) == tid and fe.int_value(b) is not None:
+                    arms[fe.int_value(b)] = t
+                elif fe.ref_id(b) == tid and fe.int_value(a) is not None:
+                    arms[fe.int_value(a)] = t
+
+    def nm(x):
+        x = strip(x)
+        return x['referencedDecl'].get('name') if x.get('kind') == 'DeclRefExpr' else None
+
+    def describe(arm):
+        calls = [(callee_name(x), call_args(x), x) for x in walk(arm) if x.get('kind') == 'CallExpr']
+        prod = [(cn, a) for cn, a, x in calls if cn in ('MatrixColSDEV', 'MatrixColRMS', 'MatrixColVar', 'MatrixColAverage') and len(a) == 2 and nm(a[1]) == scal]
+        stores = [x for x in walk(arm) if is_assign(x) and exprs.text_key(kids(x)[0]).startswith(scal + '->data')]
+        if len(prod) == 1 and nm(prod[0][1][0]) == orig:
+            if not stores:
+                return ('producer', prod[0][0])
+            if len(stores) == 1 and stores[0].get('opcode') == '=':
+                r = strip(kids(stores[0])[1])
+                lp = [l for l in walk(arm) if l.get('kind') == 'ForStmt']
+                if r.get('kind') == 'CallExpr' and callee_name(r) == 'sqrt' and exprs.text_key(call_args(r)[0]) == exprs.text_key(kids(stores[0])[0]) and len(lp) == 1:
+                    ind = flow.induction(lp[0])
+                    if ind and str(ind['init']) == '0' and ind['op'] == '<' and exprs.text_key(ind['bound_expr']) == '%s->size' % scal:
+                        return ('sqrt-of', prod[0][0])
+            return ('other', 'producer %s then %d further stores' % (prod[0][0], len(stores)))
+        if not prod:
+            cp = [(cn, a) for cn, a, x in calls if cn == 'DVectorCopy' and len(a) == 2 and nm(a[0]) == avg and nm(a[1]) == scal]
+            if len(cp) == 1 and not stores and len(calls) == 1:
+                return ('copy-average',)
+            mm = [(cn, a) for cn, a, x in calls if cn == 'MatrixColumnMinMax']
+            ap = [(cn, a) for cn, a, x in calls if cn == 'DVectorAppend' and nm(a[0]) == scal]
+            lp = [l for l in walk(arm) if l.get('kind') == 'ForStmt']
+            if len(mm) == 1 and len(ap) == 1 and len(lp) == 1 and nm(mm[0][1][0]) == orig:
+                ind = flow.induction(lp[0])
+                kv = ind['var'].split('#')[0] if ind else None
+                lo_, hi_ = (strip(x) for x in mm[0][1][2:4])
+                v = strip(ap[0][1][1])
+                if (ind and str(ind['init']) == '0' and ind['op'] == '<' and exprs.text_key(ind['bound_expr']) == '%s->col' % orig and
+                        exprs.text_key(mm[0][1][1]) == kv and lo_.get('opcode') == '&' and hi_.get('opcode') == '&' and
+                        v.get('kind') == 'BinaryOperator' and v.get('opcode') == '-' and
+                        exprs.text_key(kids(v)[0]) == exprs.text_key(kids(hi_)[0]) and exprs.text_key(kids(v)[1]) == exprs.text_key(kids(lo_)[0])):
+                    return ('range',)
+        return ('other', f.unit.text(arm)[:60])
+    for k in (1, 2, 3, 4, 5):
+        if k not in arms:
+            continue        # reported by G.options
+        d = describe(arms[k])
+        if d == OPTION_TABLE[k]:
+            chk.instance(R, '%s option %d stores the %s of the input' % (f.unit.where(arms[k]), k, OPTION_NAMES[k]))
+        else:
+            chk.instance(R, '%s option %d: %s' % (f.unit.where(arms[k]), k, d), 'refuted')
+            chk.violation(Finding('G.option-statistic', rel(f.file), f.name, 'stat:%d' % k, f.unit.where(arms[k]),
+                                  'MatrixPreprocess: option %d must scale by the %s of the training matrix, but its arm computes %s'
+                                  % (k, OPTION_NAMES[k], ' '.join(str(x) for x in d))))
+    # centring: colaverage <- MatrixColAverage(orig), subtracted from the same matrix
+    ca = [(call_args(x), x) for x in walk(f.body) if x.get('kind') == 'CallExpr' and callee_name(x) == 'MatrixColAverage']
+    good = len(ca) == 1 and nm(ca[0][0][0]) == orig and nm(ca[0][0][1]) == avg
+    if good:
+        chk.instance(R, '%s the average subtracted is MatrixColAverage(%s)' % (f.unit.where(ca[0][1]), orig))
+    else:
+        chk.instance(R, 'centring statistic', 'refuted')
+        chk.violation(Finding('G.option-statistic', rel(f.file), f.name, 'average', f.where,
+                              'MatrixPreprocess no longer fills the average vector with MatrixColAverage of the input matrix exactly once'))
